@@ -176,7 +176,19 @@ def monC08 (h : Hist) : Option String :=
         | some r0, some r1 =>
           (r0.find? fun r => r.id ≠ e.id && !(r1.any fun r' => r'.id = r.id)).map fun r =>
             s!"exchange {ri.n} ({stream}): replacing {shw e.id} dropped the other variant {shw r.id} from the index"
-        | _, _ => none
+        | _, _ =>
+          -- a full reply that may be stored and carries explicit freshness REPLACES the validated response — whatever
+          -- its status (a cacheable 503 is the origin's new representation like a 200), unless stale-if-error takes
+          -- the failure. Sequential, fault-free histories only; the write is recognised by the reply's body token.
+          let sieAround := Spec.hasDirective Spec.rfc e.resp.header (str% "stale-if-error") || Spec.hasDirective Spec.rfc ri.req.header (str% "stale-if-error")
+          let failure := [500, 502, 503, 504].contains rp.resp.status
+          if !h.faults.isEmpty || h.concurrent || (replyForbidsStoring ri rp).isSome || (failure && sieAround) ||
+             !(Spec.hasDirective Spec.rfc rp.resp.header (str% "max-age") || !(Header.get rp.resp.header sExpires).isEmpty) ||
+             rp.bodyFail ≥ 0 || rp.resp.status < 200 || Spec.hasDirective Spec.rfc rp.resp.header (str% "must-understand") then none
+          else if stores.any (fun s => match s.op, s.result, s.val with
+              | "set", "ok", .ent en _ => tokenOf en.resp.body = some (ri.n, c.k)
+              | _, _, _ => false) then none
+          else some s!"exchange {ri.n} ({stream}): the origin's full reply to the validation of {shw e.id} (status {rp.resp.status}, cacheable) was not stored: the validated response stays in place"
 where
   /-- the 304 as the cache sees it: a Date is added when the origin sent none -/
   timeOfDate (h : Hist) (hd : Header) (t1 : Int) : Header :=
